@@ -1,6 +1,6 @@
 (** C15 — correspondence (model output = implementation output) and the spec-side predicate evaluated on
     the implementation's outputs. *)
-From V Require Import Base.Util Gql.Ast Writer.Wop C15.Model C15.Spec.
+From V Require Import Base.Util Gql.Ast Writer.Wop C15.Model C15.Spec C15.Reify C15.CheckRespects.
 
 Inductive case :=
 (** schema_from_introspection_json on the text of [j] *)
@@ -11,8 +11,10 @@ Inductive case :=
     independently from M by the harness; out_* = the implementation's Schema values.  [strict] = compare on every
     type name (the unguarded property); otherwise on [vis_of M].  [guard] = the harness's claim that M satisfies
     [model_ok] (the hypothesis of C15_routes_agree).  [order] = the order in which J lists the types of
-    [listed_types meta M] (indices; [] = the standard order). *)
+    [listed_types meta M] (indices; [] = the standard order).  [docs] = operation documents with the verdicts of the real
+    check_operation_document under the SDL route's and the JSON route's Schema. *)
 | CRoutes (strict guard : bool) (st : jstyle) (meta : bool) (order : list nat) (M : smodel) (D : tsdoc) (J : json) (out_sdl : schema) (out_json : res schema)
+          (docs : list (opdoc * bool * bool))
 (** verdicts of check_operation_document for one operation document under the two Schema values *)
 | CVerdict (label : str) (ok_sdl ok_json : bool)
 (** writer operations of SchemaTypePrinter::print_document on the two routes *)
@@ -226,17 +228,31 @@ Definition listed_in (order : list nat) (l : list mtype) : list mtype :=
   | _ => flat_map (fun i => match nth_error l i with Some t => [t] | None => [] end) order
   end.
 
+Definition is_nil_err (l : list V.C03.Model.err) : bool := match l with [] => true | _ => false end.
+
 Definition agree (c : case) : bool :=
   match c with
   | CJson _ j out => res_eqb schema_eqb (json_route j) out
   | CBack sc ast sc2 => tsdoc_eqb (type_system_to_ast sc) ast && schema_eqb (ast_to_type_system ast) sc2
-  | CRoutes strict guard st meta order M D J out_sdl out_json =>
+  | CRoutes strict guard st meta order M D J out_sdl out_json docs =>
       strict ||
       (schema_eqb (ast_to_type_system D) out_sdl && res_eqb schema_eqb (json_route J) out_json
        (* the spec-side functions describe the inputs the implementation was given, and the hypotheses of
           C15_routes_agree hold for them *)
        && json_eqb (introspect_of st (listed_in order (listed_types meta M)) M) J && doc_equiv_b D (sdl_doc M) && parsed_positions_b D
-       && Bool.eqb (model_ok M) guard)
+       && Bool.eqb (model_ok M) guard
+       (* the computable guard of C15_check_respects_equiv on the two schema documents *)
+       && match out_json with Ok sj => sim_guard_b (vis_of M) D (doc_of_schema sj) | Err _ => true end
+       (* C03's checker model reproduces the real checker's verdicts: on the SDL document, and on the reification of the
+          Schema the JSON route built (the checker is generic in the Schema; this ties the model to it on that route too) *)
+       && forallb (fun d => match d with
+                            | (doc, ok_sdl, ok_json) =>
+                                Bool.eqb (is_nil_err (V.C03.Model.check_operation_document D doc)) ok_sdl
+                                && match out_json with
+                                   | Ok sj => Bool.eqb (is_nil_err (V.C03.Model.check_operation_document (doc_of_schema sj) doc)) ok_json
+                                   | Err _ => true
+                                   end
+                            end) docs)
   | CVerdict _ _ _ => true
   | CAlias _ _ _ => true
   | CCli _ _ _ same_sdl same_json => same_sdl && same_json
@@ -247,7 +263,7 @@ Definition holds (c : case) : bool :=
   match c with
   | CJson _ _ _ => true
   | CBack sc _ sc2 => back_equiv_b sc sc2
-  | CRoutes strict _ _ _ _ M _ _ out_sdl out_json =>
+  | CRoutes strict _ _ _ _ M _ _ out_sdl out_json _ =>
       match out_json with
       | Ok sj => schema_equiv_b (if strict then vis_all else vis_of M) sj out_sdl
       | Err _ => false
